@@ -13,14 +13,15 @@ INV = {
             'Inv_C06_InTransition', 'Inv_C06_Archived', 'Inv_C06_ArchivedNotReconciled'],
     'C07': ['Inv_C07_CreateJustified', 'Inv_C07_AtMostOnePerTemplateEpoch', 'Inv_C07_RevisionsUnique', 'Inv_C07_RevisionIncreasing', 'Inv_C07_NoReuse', 'Inv_C07_ProgressOnMismatch'],
     'C08': ['Inv_C08_ArchiveOnlyPaused', 'Inv_C08_NewestNeverArchived', 'Inv_C08_ArchiveCondition', 'Inv_C08_PruneOldestOnly', 'Inv_C08_SharedObjectNotDeleted'],
-    'C09': ['Inv_C09_NoWritesWhilePaused', 'Inv_C09_StillReports', 'Inv_C09_DeploymentPausedNoRevisionChange', 'Inv_C09_ReleaseExactlyMarked', 'Inv_C09_Propagation'],
+    'C09': ['Inv_C09_NoWritesWhilePaused', 'Inv_C09_StillReports', 'Inv_C09_DeploymentPausedNoRevisionChange', 'Inv_C09_ReleaseExactlyMarked', 'Inv_C09_Propagation', 'Inv_C09_PackagePaused'],
     'C10': ['Inv_C10_Quiescent', 'Inv_C10_SameOutcome', 'Inv_C10_DigestMatchesStore', 'Inv_C19_NoPanic'],
     'C11': ['Inv_C11_PhaseAllOrNothing', 'Inv_C11_Scope', 'Inv_C11_Reported', 'Inv_C11_NoWriteIfViolating', 'Inv_C11_ViolationReported'],
-    'C14': ['Inv_C14_SameAsInline'],
+    'C14': ['Inv_C14_SameAsInline', 'Inv_C14_GC', 'Inv_C14_SliceContent'],
     'C15': ['Inv_C15_SameAsLocal', 'Inv_C15_PhaseObjectFaithful', 'Inv_C15_PhaseObjectLifetime', 'Inv_C15_PausePropagation'],
     'C12': ['Inv_C12_InformerIffOwned', 'Inv_C12_HandlersAttached', 'Inv_C12_ReadUnwatchedFails', 'Inv_C12_MatchesReferenceModel'],
     'C20': ['Inv_C20_OnePullPerImage', 'Inv_C20_ExactlyOneResponse', 'Inv_C20_NoPhantomPull', 'Inv_C20_Private', 'Inv_C20_NoLostWakeup'],
     'C13': ['Inv_C13_Deterministic', 'Inv_C13_Conservation', 'Inv_C13_LabelsAndAnnotations', 'Inv_C13_FuncAllowList'],
+    'C16': ['Inv_C16_NoDeployUnlessAdmissible', 'Inv_C16_Conditions', 'Inv_C16_NoRepull', 'Inv_C16_TemplateIsRender', 'Inv_C16_ValidPackageDeploys', 'Inv_C19_NoPanic'],
     'C17': ['Inv_C17_Verdict', 'Inv_C17_AllFailuresReported', 'Inv_C17_CELMustBeBoolean', 'Inv_C17_ObjectUnchanged', 'Inv_C17_NoPanic'],
     'C19': ['Inv_C19_NoPanic'],
 }
@@ -42,7 +43,10 @@ def scenario_family(name):
 
 def identity(pid, v):
     e = v['event']
-    return '%s:%s:%s:%s' % (v['invariant'], e.get('actor'), e.get('ev'), key_kind(e.get('key', '')))
+    ident = '%s:%s:%s:%s' % (v['invariant'], e.get('actor'), e.get('ev'), key_kind(e.get('key', '')))
+    if e.get('ev') == 'C16Template':
+        ident += ':pulled=' + str(e.get('args', {}).get('pulled', ''))
+    return ident
 
 
 # ---------------------------------------------------------------- coverage rules
@@ -98,7 +102,8 @@ def g_dep_archive(e):
     return e['actor'] in ('od', 'cod') and ((e['ev'] == 'Update' and e['args']['body']['cr']['lifecycle'] == 'Archived') or e['ev'] == 'Delete')
 
 
-GUARDS = {'C17': lambda e: e['ev'] == 'C17Row',
+GUARDS = {'C16': lambda e: e['ev'] == 'Pull',
+          'C17': lambda e: e['ev'] == 'C17Row',
           'C20': lambda e: e['ev'] in ('C20Release', 'C20Stress') and (e['ev'] == 'C20Stress' or len(e['args']['returned']) > 0),
           'C12': lambda e: e['ev'] in ('C12Op', 'C12Quiescent'),
           'C15': lambda e: e['ev'] in ('Create', 'Delete', 'MergePatch') and e['key'].startswith('ObjectSetPhase/') and e['actor'] == 'os' or (e['ev'] == 'Quiesced' and e['args'].get('diff') == 'c15'),
@@ -107,6 +112,7 @@ GUARDS = {'C17': lambda e: e['ev'] == 'C17Row',
           'C09': g_paused, 'C11': g_preflight}
 
 RULES = {
+    'C16': 'non-trivial: the Package controller pulled an image (valid, each invalidity class, unmet constraints, pull failure) in a seeded walk with spec edits, API faults and conflicts; distinct by event sequence',
     'C13': 'one case = one abstract package rendered k times in one process; distinct abstract packages are counted',
     'C17': 'one case = one (probe list, object) row: every single-entry probe list x every abstract object exhaustively, lists of 2-3 entries sampled by seed',
     'C20': 'one case = one script of request arrivals / pull completions (3 callers x 2 images, success or failure) executed on the real RequestManager, or one free-running stress run; non-trivial if a pull completed with waiting callers; distinct by event sequence',
@@ -325,6 +331,14 @@ CHECKS = {
                 level_text='Every abstract package (all subsets of the file pool exhaustively, document attributes seeded) is concretised into real package files and rendered repeatedly through the real structural loader, RenderPackageInstance, RenderObjectSetTemplateSpec and FNV hash; TLC compares the outcome with the TLA+ function Render!Expected, checks determinism and the template function allow list.',
                 jobs=lambda tier, seed: [dict(name='render-table', module='TraceRender', shards=8 if tier == 'quick' else 14,
                                               driver=['render-table', '-n', '300' if tier == 'quick' else '20000', '-steps', '12' if tier == 'quick' else '60', '-seed', str(seed)])]),
+    'C16': dict(level='model_checking', invariants=INV['C16'], assumptions=ASSUME + [
+        'the registry is scripted (fixture packages per image reference); loader, validators, renderer, deployer and chunker are the real code',
+        'reference render for Inv_C16_TemplateIsRender = the same pipeline invoked directly on the current spec in a fault-free call'],
+        jobs=lambda tier, seed: [
+            dict(name='package-atomic', shards=4 if tier == 'quick' else 14,
+                 driver=['package-walk', '-mode', 'atomic', '-n', '90' if tier == 'quick' else '3000', '-steps', '70', '-seed', str(seed)]),
+            dict(name='package-api', shards=4 if tier == 'quick' else 14,
+                 driver=['package-walk', '-mode', 'api', '-n', '90' if tier == 'quick' else '3000', '-steps', '160', '-seed', str(seed)])]),
     'C17': dict(level='model_checking', invariants=INV['C17'], module='TraceProbing',
                 assumptions=['abstract row domain: selectors {none,match,mismatch}^2, sub-probes condition/fieldsEqual/CEL, object status shapes incl. malformed conditions; observedGeneration values are integers'],
                 level_text='Every row of the abstract probe-list x object table (single-entry lists exhaustively, longer lists sampled/seeded) is concretised, run through the real internal/probing.Parse and pkg/probing probers, and TLC compares verdict, number of reported failures, parse errors and object immutability with the TLA+ function Probing!Pass.',
@@ -345,6 +359,8 @@ CHECKS = {
                 invariants=INV['C14'] + INV['C03'] + INV['C04'] + INV['C05'] + INV['C06'] + ['Inv_C09_NoWritesWhilePaused'],
                 jobs=lambda tier, seed: [
                     dict(name='differential-c14', shards=5 if tier == 'quick' else 14, driver=['differential', '-profile', 'c14']),
+                    dict(name='package-sliced', shards=4 if tier == 'quick' else 14,
+                         driver=['package-walk', '-mode', 'api', '-n', '60' if tier == 'quick' else '2000', '-steps', '160', '-seed', str(seed)]),
                     rnd('sliced-atomic', 'sliced', 'all', 'atomic', 80 if tier == 'quick' else 2000, 90, seed, 4 if tier == 'quick' else 14),
                     rnd('sliced-api', 'sliced', 'all', 'api', 80 if tier == 'quick' else 2000, 160, seed, 4 if tier == 'quick' else 14)]),
     'C15': dict(level='model_checking', assumptions=ASSUME,
